@@ -10,6 +10,14 @@ CLAIMED = {
    technique="bounded exhaustive enumeration of source texts executed on the real lexer with a structural position oracle, two build configurations",
    text="All strings <=6/7 characters over an 18-symbol alphabet chosen for position bookkeeping (quotes, parentheses, LF, CR, apostrophes, suffix letters, multi-byte letter and space, digit, dot, underscore, punctuation) and all glued/spaced sequences of multi-line literals, suffixes and other tokens are lexed by the real Lexer; for every token the check recomputes from the source text that the spelling is an in-order, disjoint sub-slice, that everything between tokens is ignorable, that id and spelling agree structurally, and that start/end line and byte column are the true ones. Exhaustive over the stated space, which contains every interaction of multi-line tokens, suffixes and line starts up to that length.",
    note="Trusted: the line/column recomputation in the harness (count of LF bytes and offset from the last LF). Not covered: longer texts, other characters of the same classes; which alias is which keyword (C02)."),
+ "C03": dict(level="exploration", design="§2 C03",
+   technique="bounded exhaustive enumeration of operator x operand-kind cells (value universe U^2 / U^3, statement positions, nestings) executed on the real interpreter and compared with an independent reference interpreter",
+   text="Every cell of every operator over a 34-value universe that has one element per kind and per boundary the coercions inspect (13 binary operators x U^2, unary, list operands x U^3, side-effecting operands that make short-circuit and evaluation order observable, compound assignment, build/knock, every cell in six statement positions, depth-2 nestings) is run as a real program in both builds and compared - outcome class and printed text - with a reference interpreter written from the property text and anchored on the repository's val unit tests; the same cells are also evaluated directly on the public Val API. Exhaustive over the universe: a wrong table cell, a swapped operand or a lost short-circuit inside U cannot escape.",
+   note="Trusted: the reference tables (refmodel/value.rs), self-checked against the anchors by ./check selftest. Cells the property leaves open are skipped and counted by reason in the evidence. Values outside U are not covered."),
+ "C14": dict(level="exploration", design="§2 C14",
+   technique="bounded exhaustive enumeration of all ordered value pairs of U with a relational (metamorphic) oracle on the real interpreter",
+   text="For all 34^2 ordered pairs of the universe ~30 one-line programs per pair are executed on the real interpreter and only relations between their results are judged: symmetry of is, negation forms, converse orderings with error<=>error, antisymmetry vs equality when an ordering exists, logic vs observed truthiness, compound assignment vs its expansion for all eight compound spellings, build-k/knock-k round trips; the same laws on the Val API. No expected values are involved, so an asymmetry already present in the code cannot hide in a copied table.",
+   note="Trusted: nothing beyond the harness; the reference interpreter is used only as a resource guard (string repetition by 1e21 is not executed). Values outside U are not covered."),
 }
 NOT_YET = "check under construction in this session (not yet claimed)"
 ids=[json.loads(l)["id"] for l in open("/verif/properties.jsonl")]
